@@ -302,6 +302,11 @@ func (w *World) execForgeOp(ctx context.Context, toks []string) (bool, error) {
 		w.forge(ctx, toks)
 	case "inject":
 		w.inject(ctx, toks)
+	case "dropblock":
+		// dropblock eN : nobody serves this block any more (its author went away, or never stored it)
+		e := w.entryByName(toks[1])
+		w.blocks.Drop(e.GetHash())
+		w.printf("blockgone %s\n", toks[1])
 	default:
 		return false, nil
 	}
